@@ -19,7 +19,11 @@ SUSPENDED = ("task_suspended", "task_suspended_cleanup_raises")
 
 
 class E(Exception):
-    pass
+    """an exception instance may be falsy (an empty 'list of problems' error defining __len__ / __bool__)"""
+
+    def __bool__(self):
+        a = self.args[0] if self.args else None
+        return not (isinstance(a, tuple) and len(a) == 2 and a[1] == 3)
 
 
 class CBErr(Exception):
